@@ -40,6 +40,9 @@ def gen_tags_case(rng, tier):
     samples = w["samples"]
     chroms = [c["name"] for c in w["chroms"]]
     ops = [{"op": "phase", "lib": "L0", "tag": rng.choice(["PS", "PS", "HP"])}]
+    if rng.random() < 0.25:
+        # the phased VCF that tags the reads is itself only partially phased
+        ops[0]["thin"] = {"salt": rng.randrange(10**6), "rate": rng.choice([0.2, 0.4])}
     if rng.random() < 0.4:
         ops[0].update(mode="render", nsets=rng.choice([1, 2, 3, 5]), salt=rng.randrange(10**6), ps_ids=rng.choice(["first", "random", "random"]))
     hopts = {}
@@ -55,6 +58,11 @@ def gen_tags_case(rng, tier):
         hopts["noref"] = True
     if rng.random() < 0.2:
         hopts["ignore_linked_read"] = True
+    if len(samples) > 1 and rng.random() < 0.25:
+        hopts["given_samples"] = [rng.choice(samples)]
+    if rng.random() < 0.25:
+        # the BAM was already haplotagged earlier, with a different (equally consistent) phasing
+        ops.append({"op": "pretag", "nsets": rng.choice([1, 2, 4]), "salt": rng.randrange(10**6), "ps_ids": "random"})
     ops.append({"op": "haplotag", "opts": hopts})
     if rng.random() < 0.3:
         ops.append({"op": "haplotag_again"})
@@ -216,6 +224,12 @@ class TagsRun:
                 phase_input_files=[bam], variant_file=os.path.join(d, "in.vcf"), output=vstar, reference=ref,
                 tag=tag, write_command_line_header=False)):
             return
+        thin = ops["phase"].get("thin")
+        if thin:
+            full = os.path.join(d, "vstar_full.vcf")
+            os.rename(vstar, full)
+            rewrite_unphased(full, vstar, lambda c, s, p: _pick(thin["salt"], c, s, p, thin["rate"]))
+            self.stats.inc("vstar_partially_phased")
         try:
             dstar = decode_with_whatshap(vstar)
         except Exception as e:
@@ -231,8 +245,21 @@ class TagsRun:
         hopts = dict(ops["haplotag"].get("opts", {}))
         noref = hopts.pop("noref", False)
         tagged = os.path.join(d, "tagged.bam")
+        src_bam = bam
+        if "pretag" in ops:
+            pre = ops["pretag"]
+            vprime = os.path.join(d, "vprime.vcf")
+            render_vstar(w, vprime, "PS", pre.get("nsets", 1), pre.get("salt", 1), pre.get("ps_ids", "random"))
+            vpgz = W.bgzip_index(vprime, os.path.join(d, "vprime.vcf.gz"))
+            pretagged = os.path.join(d, "pretagged.bam")
+            if not self.guarded("haplotag(V',B) [earlier tagging]", lambda: run_haplotag(
+                    variant_file=vpgz, alignment_file=bam, output=pretagged, reference=ref)):
+                return
+            pysam.index(pretagged)
+            src_bam = pretagged
+            self.stats.inc("pretagged")
         if not self.guarded("haplotag(V*,B)", lambda: run_haplotag(
-                variant_file=vgz, alignment_file=bam, output=tagged, reference=False if noref else ref, **hopts)):
+                variant_file=vgz, alignment_file=src_bam, output=tagged, reference=False if noref else ref, **hopts)):
             return
         pysam.index(tagged)
         for k in hopts:
@@ -294,6 +321,12 @@ class TagsRun:
             return
         self.log.add("w", sorted((list(k), [v[0], list(v[1])]) for k, v in dw.items()))
 
+        self.core_index = {}
+        kk = 0
+        for r in w["records"]:
+            if r.get("core"):
+                self.core_index[(w["chroms"][r["chrom"]]["name"], r["pos"])] = kk
+                kk += 1
         # T1
         for k3, st in sorted(do.items()):
             self.stats.inc("t1_checked")
@@ -325,9 +358,35 @@ class TagsRun:
                 self.stats.inc("t2_excluded_by_proviso")
                 continue
             want = dstar.get(k3)
+            # the phase set of the reads that cover it: tagged reads can only carry phase-set ids of V*
+            vstar_ids = {ps for (q, ps) in sets_by_cs.get((c, s), [])}
+            if got[0] not in vstar_ids:
+                self.add("foreign-phase-set",
+                         "%s:%d sample %s: haplotagphase put it into phase set %r, but the phased VCF that tagged the reads has only the sets %s on this chromosome" % (
+                             c, p + 1, s, got[0], sorted(vstar_ids)), "foreign-phase-set")
+                return
             if want is None:
-                # phased now although V* had it unphased: nothing to compare with (allowed by the statement)
+                # phased now although V* had it unphased: there is no order in V* to compare with, but the reads are
+                # error-free copies of the true haplotypes and V* is consistent with them, so its set fixes the order
                 self.stats.inc("t2_not_in_vstar")
+                kcore = self.core_index.get((c, p))
+                if kcore is not None:
+                    truth = (w["truth"]["main"][s][0][kcore], w["truth"]["main"][s][1][kcore])
+                    orient = set()
+                    for (cc, ss, q), (ps, al) in dstar.items():
+                        if cc == c and ss == s and ps == got[0]:
+                            kq = self.core_index.get((cc, q))
+                            if kq is not None:
+                                tq = (w["truth"]["main"][s][0][kq], w["truth"]["main"][s][1][kq])
+                                orient.add("same" if tuple(al) == tq else "flip" if tuple(al) == (tq[1], tq[0]) else "other")
+                    if orient == {"same"} or orient == {"flip"}:
+                        exp = truth if orient == {"same"} else (truth[1], truth[0])
+                        self.stats.inc("t2b_checked")
+                        if tuple(got[1]) != exp:
+                            self.add("reproduced-wrongly",
+                                     "%s:%d sample %s: unphased in the VCF that tagged the reads; haplotagphase phased it as %r in set %d, the error-free reads of that set carry %r" % (
+                                         c, p + 1, s, got, got[0], exp), "reproduced-wrongly:vs-reads")
+                            return
                 continue
             self.stats.inc("t2_checked")
             if got != want:
